@@ -1,9 +1,10 @@
 /-
   Helper lemmas for C01.  The primed statements are re-exported by OrbProofs/C01.lean.
 -/
-import Orb.WKB
+import OrbProofs.C01Consume
 
 namespace Orb.WKB
+open Orb Generated.Params
 
 /-! ### spec-side vocabulary -/
 
@@ -19,42 +20,359 @@ def WF32 : G → Prop
   | .bound _ _ => True
   | .collection gs => gs.length < 2^32 ∧ ∀ g ∈ gs, WF32 g
 
+/-! ### stream decoder and byte decoder on encoder output -/
+
+theorem decodeWith_enc (coll : Order → Bytes → R (List G × Bytes)) (o : Order) (srid : Nat) (g : G)
+    (rest : Bytes) (hw : WF32 g) (hs : srid < 2 ^ 32)
+    (hcoll : ∀ gs, g = .collection gs → coll o (body o g ++ rest) = .ok (canon.canonList gs, rest)) :
+    decodeWith coll (encGeom o srid g ++ rest) = .ok (canon g, srid, rest) := by
+  rw [encGeom_eq, List.cons_append, List.append_assoc]
+  unfold decodeWith
+  rw [readBOT_hdr o _ srid _ (tcode_TC g) hs]
+  cases g with
+  | point p =>
+    simp [tcode, body, wkb_pointType, readPoint_encPt, canon]
+  | multiPoint ps =>
+    simp only [WF32] at hw
+    simp [tcode, body, wkb_pointType, wkb_multiPointType, readU32_u32' _ _ _ hw, readMembers_points, canon]
+  | lineString ps =>
+    simp only [WF32] at hw
+    simp [tcode, body, wkb_pointType, wkb_multiPointType, wkb_lineStringType, readLineString_enc _ _ _ hw, canon]
+  | multiLineString ls =>
+    simp only [WF32] at hw
+    simp [tcode, body, wkb_pointType, wkb_multiPointType, wkb_lineStringType, wkb_multiLineStringType,
+      readU32_u32' _ _ _ hw.1, readMembers_lineStrings _ _ _ hw.2, canon]
+  | ring r =>
+    simp only [WF32] at hw
+    simp [tcode, body, wkb_pointType, wkb_multiPointType, wkb_lineStringType, wkb_multiLineStringType,
+      wkb_polygonType, canon]
+    rw [readPolygon_enc o [r] rest (by simp) (by simpa using hw)]
+  | polygon rs =>
+    simp only [WF32] at hw
+    simp [tcode, body, wkb_pointType, wkb_multiPointType, wkb_lineStringType, wkb_multiLineStringType,
+      wkb_polygonType, canon, readPolygon_enc o rs rest hw.1 hw.2]
+  | multiPolygon ps =>
+    simp only [WF32] at hw
+    simp [tcode, body, wkb_pointType, wkb_multiPointType, wkb_lineStringType, wkb_multiLineStringType,
+      wkb_polygonType, wkb_multiPolygonType, canon, readU32_u32' _ _ _ hw.1, readMembers_polygons _ _ _ hw.2]
+  | bound a b =>
+    simp [tcode, body, wkb_pointType, wkb_multiPointType, wkb_lineStringType, wkb_multiLineStringType,
+      wkb_polygonType, canon]
+    rw [readPolygon_enc o [boundRing a b] rest (by simp) (by simp [boundRing])]
+  | collection gs =>
+    have := hcoll gs rfl
+    simp [tcode, wkb_pointType, wkb_multiPointType, wkb_lineStringType, wkb_multiLineStringType,
+      wkb_polygonType, wkb_multiPolygonType, wkb_geometryCollectionType, canon, this]
+
+theorem encList_length_mem (o : Order) (gs : List G) (g : G) (h : g ∈ gs) :
+    (encGeom o 0 g).length ≤ (encGeom.encList o gs).length := by
+  induction gs with
+  | nil => cases h
+  | cons x xs ih =>
+    simp only [encGeom.encList, List.length_append]
+    rcases List.mem_cons.1 h with h | h
+    · subst h; omega
+    · have := ih h; omega
+
+theorem collLoop_enc (dec : Bytes → R (G × Nat × Bytes)) (o : Order) (gs : List G) (rest : Bytes)
+    (h : ∀ g ∈ gs, ∀ rest', dec (encGeom o 0 g ++ rest') = .ok (canon g, 0, rest')) :
+    collLoop dec gs.length (encGeom.encList o gs ++ rest) = .ok (canon.canonList gs, rest) := by
+  induction gs with
+  | nil => rfl
+  | cons x xs ih =>
+    have ih' := ih (fun y hy => h y (by simp [hy]))
+    simp only [encGeom.encList, List.length_cons, collLoop, List.append_assoc, h x (by simp), ih',
+      canon.canonList]
+
+theorem readCollectionF_enc (fuel : Nat) : ∀ (o : Order) (gs : List G) (rest : Bytes),
+    gs.length < 2 ^ 32 → (∀ g ∈ gs, WF32 g) → 4 + (encGeom.encList o gs).length ≤ fuel →
+    readCollectionF fuel o (u32 o gs.length ++ (encGeom.encList o gs ++ rest)) =
+      .ok (canon.canonList gs, rest) := by
+  induction fuel with
+  | zero => intro o gs rest _ _ h; omega
+  | succ fuel ih =>
+    intro o gs rest hl hw hf
+    simp only [readCollectionF, readU32_u32' _ _ _ hl]
+    apply collLoop_enc
+    intro g hg rest'
+    apply decodeWith_enc _ o 0 g rest' (hw g hg) (by decide)
+    intro gs' hgs'
+    subst hgs'
+    have hwg := hw _ hg
+    simp only [WF32] at hwg
+    simp only [body, List.append_assoc]
+    apply ih o gs' rest' hwg.1 hwg.2
+    have h1 := encList_length_mem o gs _ hg
+    rw [encGeom_eq] at h1
+    simp only [body, tcode, hdr_zero, List.length_cons, List.length_append, u32_length] at h1
+    omega
+
+
+theorem decodeStream_enc_aux (o : Order) (srid : Nat) (g : G) (hw : WF32 g) (hs : srid < 2^32) (rest : Bytes)
+    (fuel : Nat) (hf : (encGeom o srid g).length ≤ fuel) :
+    decodeStream fuel (encGeom o srid g ++ rest) = .ok (canon g, srid, rest) := by
+  unfold decodeStream
+  apply decodeWith_enc _ o srid g rest hw hs
+  intro gs hgs
+  subst hgs
+  simp only [WF32] at hw
+  simp only [body, List.append_assoc]
+  apply readCollectionF_enc fuel o gs rest hw.1 hw.2
+  rw [encGeom_eq] at hf
+  have := hdr_length_ge o (tcode (Geom.collection gs)) srid
+  simp only [body, List.length_cons, List.length_append, u32_length] at hf
+  omega
+
+theorem decode_enc_aux (o : Order) (srid : Nat) (g : G) (hw : WF32 g) (hs : srid < 2^32) :
+    decode (encGeom o srid g) = .ok (canon g, srid) := by
+  have := decodeStream_enc_aux o srid g hw hs [] _ (Nat.le_refl _)
+  rw [List.append_nil] at this
+  simp only [decode, this]
+
+theorem unmarshal_enc_aux (o : Order) (srid : Nat) (g : G) (hw : WF32 g) (hs : srid < 2^32) :
+    unmarshal (encGeom o srid g) = .ok (canon g, srid) := by
+  have hd := decode_enc_aux o srid g hw hs
+  obtain ⟨n, hn⟩ := encGeom_length_succ o srid g
+  unfold unmarshal
+  rw [unmarshalBOT_enc o srid g hs]
+  simp only []
+  rw [hn]
+  cases g with
+  | point p =>
+    have := unmarshalPoint_encPt o p []
+    simp only [List.append_nil] at this
+    simp [tcode, body, wkb_pointType, canon, this]
+  | multiPoint ps =>
+    simp only [WF32] at hw
+    have := unmarshalMultiPoint_enc n o ps [] hw
+    simp only [List.append_nil] at this
+    simp [tcode, body, wkb_pointType, wkb_multiPointType, canon, this]
+  | lineString ps =>
+    simp only [WF32] at hw
+    have := unmarshalPoints_enc o ps [] hw
+    simp only [List.append_nil] at this
+    simp [tcode, body, wkb_pointType, wkb_multiPointType, wkb_lineStringType, canon, this]
+  | multiLineString ls =>
+    simp only [WF32] at hw
+    have := unmarshalMultiLineString_enc n o ls [] hw.1 hw.2
+    simp only [List.append_nil] at this
+    simp [tcode, body, wkb_pointType, wkb_multiPointType, wkb_lineStringType, wkb_multiLineStringType,
+      canon, this]
+  | ring r =>
+    simp only [WF32] at hw
+    have := unmarshalPolygon_enc o [r] [] (by simp) (by simpa using hw)
+    simp only [List.append_nil] at this
+    simp [tcode, body, wkb_pointType, wkb_multiPointType, wkb_lineStringType, wkb_multiLineStringType,
+      wkb_polygonType, canon, this]
+  | polygon rs =>
+    simp only [WF32] at hw
+    have := unmarshalPolygon_enc o rs [] hw.1 hw.2
+    simp only [List.append_nil] at this
+    simp [tcode, body, wkb_pointType, wkb_multiPointType, wkb_lineStringType, wkb_multiLineStringType,
+      wkb_polygonType, canon, this]
+  | multiPolygon ps =>
+    simp only [WF32] at hw
+    have := unmarshalMultiPolygon_enc n o ps [] hw.1 hw.2
+    simp only [List.append_nil] at this
+    simp [tcode, body, wkb_pointType, wkb_multiPointType, wkb_lineStringType, wkb_multiLineStringType,
+      wkb_polygonType, wkb_multiPolygonType, canon, this]
+  | bound a b =>
+    have := unmarshalPolygon_enc o [boundRing a b] [] (by simp) (by simp [boundRing])
+    simp only [List.append_nil] at this
+    simp [tcode, body, wkb_pointType, wkb_multiPointType, wkb_lineStringType, wkb_multiLineStringType,
+      wkb_polygonType, canon, this]
+  | collection gs =>
+    simp [tcode, wkb_pointType, wkb_multiPointType, wkb_lineStringType, wkb_multiLineStringType,
+      wkb_polygonType, wkb_multiPolygonType, wkb_geometryCollectionType, hd]
+
+/-! ### the Scan table -/
+
+theorem scanDest_table (bnd : BoundFn) (d : Dest) (o : Order) (srid : Nat) (g : G) (hw : WF32 g)
+    (hs : srid < 2^32) :
+    scanDest bnd d (encGeom o srid g) =
+      (match coerce bnd d (canon g) with
+       | some v => .ok (v, srid)
+       | none => .err .incorrectGeometry) := by
+  have hu := unmarshal_enc_aux o srid g hw hs
+  have hd := decode_enc_aux o srid g hw hs
+  have hb := unmarshalBOT_enc o srid g hs
+  obtain ⟨n, hn⟩ := encGeom_length_succ o srid g
+  cases d with
+  | any => simp only [scanDest, hu, coerce]
+  | point =>
+    simp only [scanDest, hn, scanPoint_def]
+    cases g with
+    | point p =>
+      rw [scanSingle_enc_single 1 4 _ _ o srid _ p hs rfl (body_point o p)]
+      simp [canon, coerce]
+    | multiPoint ps =>
+      simp only [WF32] at hw
+      rw [scanSingle_enc_multi 1 4 _ _ o srid _ ps hs rfl (by decide) (body_multiPoint n o ps hw)]
+      match ps with
+      | [] => simp [canon, coerce]
+      | [_] => simp [canon, coerce]
+      | _ :: _ :: _ => simp [canon, coerce]
+    | lineString _ | multiLineString _ | ring _ | polygon _ | multiPolygon _ | bound _ _ | collection _ =>
+      rw [scanSingle_enc_other 1 4 _ _ o srid _ hs (by simp [tcode]) (by simp [tcode])]
+      simp [canon, coerce]
+  | multiPoint =>
+    simp only [scanDest, hu]
+    cases g <;> simp [canon, coerce]
+  | lineString =>
+    simp only [scanDest, hn, scanLineString_def]
+    cases g with
+    | lineString ps =>
+      simp only [WF32] at hw
+      rw [scanSingle_enc_single 2 5 _ _ o srid _ ps hs rfl (body_lineString o ps hw)]
+      simp [canon, coerce]
+    | multiLineString ls =>
+      simp only [WF32] at hw
+      rw [scanSingle_enc_multi 2 5 _ _ o srid _ ls hs rfl (by decide) (body_multiLineString n o ls hw.1 hw.2)]
+      match ls with
+      | [] => simp [canon, coerce]
+      | [_] => simp [canon, coerce]
+      | _ :: _ :: _ => simp [canon, coerce]
+    | point _ | multiPoint _ | ring _ | polygon _ | multiPolygon _ | bound _ _ | collection _ =>
+      rw [scanSingle_enc_other 2 5 _ _ o srid _ hs (by simp [tcode]) (by simp [tcode])]
+      simp [canon, coerce]
+  | multiLineString =>
+    simp only [scanDest, hb, hn]
+    cases g with
+    | lineString ps =>
+      simp only [WF32] at hw
+      simp [tcode, wkb_lineStringType, body_lineString o ps hw, canon, coerce]
+    | multiLineString ls =>
+      simp only [WF32] at hw
+      simp [tcode, wkb_lineStringType, wkb_multiLineStringType, body_multiLineString n o ls hw.1 hw.2,
+        canon, coerce]
+    | point _ | multiPoint _ | ring _ | polygon _ | multiPolygon _ | bound _ _ | collection _ =>
+      simp [tcode, wkb_lineStringType, wkb_multiLineStringType, canon, coerce]
+  | ring =>
+    simp only [scanDest, hu]
+    cases g with
+    | polygon rs =>
+      match rs with
+      | [] => simp [canon, coerce]
+      | [_] => simp [canon, coerce]
+      | _ :: _ :: _ => simp [canon, coerce]
+    | _ => simp [canon, coerce]
+  | polygon =>
+    simp only [scanDest, hn, scanPolygon_def]
+    cases g with
+    | ring r =>
+      simp only [WF32] at hw
+      rw [scanSingle_enc_single 3 6 _ _ o srid _ [r] hs rfl (body_ring o r hw)]
+      simp [canon, coerce]
+    | polygon rs =>
+      simp only [WF32] at hw
+      rw [scanSingle_enc_single 3 6 _ _ o srid _ rs hs rfl (body_polygon o rs hw.1 hw.2)]
+      simp [canon, coerce]
+    | bound a b =>
+      rw [scanSingle_enc_single 3 6 _ _ o srid _ [boundRing a b] hs rfl (body_bound o a b)]
+      simp [canon, coerce]
+    | multiPolygon ps =>
+      simp only [WF32] at hw
+      rw [scanSingle_enc_multi 3 6 _ _ o srid _ ps hs rfl (by decide) (body_multiPolygon n o ps hw.1 hw.2)]
+      match ps with
+      | [] => simp [canon, coerce]
+      | [_] => simp [canon, coerce]
+      | _ :: _ :: _ => simp [canon, coerce]
+    | point _ | multiPoint _ | lineString _ | multiLineString _ | collection _ =>
+      rw [scanSingle_enc_other 3 6 _ _ o srid _ hs (by simp [tcode]) (by simp [tcode])]
+      simp [canon, coerce]
+  | multiPolygon =>
+    simp only [scanDest, hb, hn]
+    cases g with
+    | ring r =>
+      simp only [WF32] at hw
+      simp [tcode, wkb_polygonType, body_ring o r hw, canon, coerce]
+    | polygon rs =>
+      simp only [WF32] at hw
+      simp [tcode, wkb_polygonType, body_polygon o rs hw.1 hw.2, canon, coerce]
+    | bound a b =>
+      simp [tcode, wkb_polygonType, body_bound o a b, canon, coerce]
+    | multiPolygon ps =>
+      simp only [WF32] at hw
+      simp [tcode, wkb_polygonType, wkb_multiPolygonType, body_multiPolygon n o ps hw.1 hw.2, canon, coerce]
+    | point _ | multiPoint _ | lineString _ | multiLineString _ | collection _ =>
+      simp [tcode, wkb_polygonType, wkb_multiPolygonType, canon, coerce]
+  | collection =>
+    simp only [scanDest, hd]
+    cases g <;> simp [canon, coerce]
+  | bound =>
+    simp only [scanDest, hu, coerce]
+
+/-! ### non-WKB first byte: every destination reports ErrNotWKBHeader -/
+
+theorem unmarshalBOT_badhdr (b0 : UInt8) (tl : Bytes) (h0 : b0 ≠ 0) (h1 : b0 ≠ 1) (hl : 5 ≤ tl.length) :
+    unmarshalBOT (b0 :: tl) = .err .notWKBHeader := by
+  have : ¬ (b0 :: tl).length < 6 := by simp only [List.length_cons]; omega
+  simp only [unmarshalBOT, byteOrderType, if_neg this, if_neg h0, if_neg h1]
+
+theorem readBOT_badhdr (b0 : UInt8) (tl : Bytes) (h0 : b0 ≠ 0) (h1 : b0 ≠ 1) :
+    readBOT (b0 :: tl) = .err .notWKBHeader := by
+  simp only [readBOT, if_neg h0, if_neg h1]
+
+theorem scanDest_badhdr (bnd : BoundFn) (d : Dest) (b0 : UInt8) (tl : Bytes) (h0 : b0 ≠ 0) (h1 : b0 ≠ 1)
+    (hl : 5 ≤ tl.length) : scanDest bnd d (b0 :: tl) = .err .notWKBHeader := by
+  have hb := unmarshalBOT_badhdr b0 tl h0 h1 hl
+  have hr := readBOT_badhdr b0 tl h0 h1
+  cases d <;>
+    simp only [scanDest, unmarshal, scanPoint, scanLineString, scanPolygon, scanSingle, decode, decodeStream,
+      decodeWith, hb, hr]
+
+theorem u32_little_shape (p : Nat) (hp : p < 2 ^ 32) :
+    ∃ b1 b2 b3, u32 .little p = [UInt8.ofNat (p % 256), b1, b2, b3] := by
+  simp only [u32, Nat.mod_eq_of_lt hp, leBytes]
+  exact ⟨_, _, _, rfl⟩
+
+theorem ofNat_mod_ne (p : Nat) (c : Nat) (hc : c < 256) (h : p % 256 ≠ c) : UInt8.ofNat (p % 256) ≠ UInt8.ofNat c := by
+  intro he
+  have := congrArg UInt8.toNat he
+  simp only [UInt8.toNat_ofNat'] at this
+  omega
+
+/-! ### the property theorems (statements fixed; re-exported by C01.lean) -/
+
 theorem encode_nil' (o : Order) (srid : Nat) (k : Kind) :
     encode o srid .nilIface = [] ∧ encode o srid (.nilSlice k) = [] := by
-  sorry
+  exact ⟨rfl, rfl⟩
 
 theorem unmarshal_encode' (o : Order) (srid : Nat) (g : G) (hw : WF32 g) (hs : srid < 2^32) :
     unmarshal (encGeom o srid g) = .ok (canon g, srid) := by
-  sorry
+  exact unmarshal_enc_aux o srid g hw hs
 
 theorem decodeStream_encode' (o : Order) (srid : Nat) (g : G) (hw : WF32 g) (hs : srid < 2^32) (rest : Bytes)
     (fuel : Nat) (hf : (encGeom o srid g).length ≤ fuel) :
     decodeStream fuel (encGeom o srid g ++ rest) = .ok (canon g, srid, rest) := by
-  sorry
+  exact decodeStream_enc_aux o srid g hw hs rest fuel hf
 
 theorem decode_encode' (o : Order) (srid : Nat) (g : G) (hw : WF32 g) (hs : srid < 2^32) :
     decode (encGeom o srid g) = .ok (canon g, srid) := by
-  sorry
+  exact decode_enc_aux o srid g hw hs
 
 theorem scan_table' (bnd : BoundFn) (d : Dest) (o : Order) (srid : Nat) (g : G) (hw : WF32 g) (hs : srid < 2^32) :
     scan bnd d (encGeom o srid g) =
       (match coerce bnd d (canon g) with
        | some v => .ok (v, srid)
        | none => .err .incorrectGeometry) := by
-  sorry
+  rw [scan_enc]
+  exact scanDest_table bnd d o srid g hw hs
 
 theorem paths_agree' (bnd : BoundFn) (o : Order) (srid : Nat) (g : G) (hw : WF32 g) (hs : srid < 2^32) :
     unmarshal (encGeom o srid g) = decode (encGeom o srid g) ∧
     scan bnd .any (encGeom o srid g) = unmarshal (encGeom o srid g) := by
-  sorry
+  refine ⟨?_, ?_⟩
+  · rw [unmarshal_enc_aux o srid g hw hs, decode_enc_aux o srid g hw hs]
+  · rw [scan_enc]; rfl
 
 theorem framing_hex' (bnd : BoundFn) (d : Dest) (upper : Bool) (o : Order) (srid : Nat) (g : G) :
     scan bnd d (hexEncode upper (encGeom o srid g)) = scan bnd d (encGeom o srid g) := by
-  sorry
+  rw [scan_hex_enc, scan_enc]
 
 theorem framing_bslash_x' (bnd : BoundFn) (d : Dest) (o : Order) (srid : Nat) (g : G) :
     scan bnd d (92 :: 120 :: hexEncode false (encGeom o srid g)) = scan bnd d (encGeom o srid g) := by
-  sorry
+  rw [scan_bslash_enc, scan_enc]
 
 theorem framing_prefix_ewkb' (bnd : BoundFn) (d : Dest) (o : Order) (srid p : Nat) (g : G) (hw : WF32 g)
     (hs : srid < 2^32) (hp : p < 2^32) :
@@ -62,7 +380,12 @@ theorem framing_prefix_ewkb' (bnd : BoundFn) (d : Dest) (o : Order) (srid p : Na
       (match coerce bnd d (canon g) with
        | some v => .ok (v, if srid ≠ 0 then srid else p)
        | none => .err .incorrectGeometry) := by
-  sorry
+  obtain ⟨n, hn⟩ := encGeom_length_succ o srid g
+  have hlen : ¬ (u32 .little p ++ encGeom o srid g).length < 5 := by
+    simp only [List.length_append, u32_length, hn]; omega
+  simp only [ewkbScan, if_true, if_neg hlen, drop_u32, scan_table' bnd d o srid g hw hs,
+    rd32_u32' _ _ _ hp]
+  cases coerce bnd d (canon g) <;> rfl
 
 theorem framing_prefix_wkb_partial' (bnd : BoundFn) (d : Dest) (o : Order) (p : Nat) (g : G) (hw : WF32 g)
     (hp : p < 2^32) (h0 : p % 256 ≠ 0) (h1 : p % 256 ≠ 1) (h2 : p % 256 ≠ 48) (h3 : p % 256 ≠ 92) :
@@ -70,15 +393,473 @@ theorem framing_prefix_wkb_partial' (bnd : BoundFn) (d : Dest) (o : Order) (p : 
       (match coerce bnd d (canon g) with
        | some v => .ok v
        | none => .err .incorrectGeometry) := by
-  sorry
+  obtain ⟨b1, b2, b3, hu⟩ := u32_little_shape p hp
+  obtain ⟨n, hn⟩ := encGeom_length_succ o 0 g
+  obtain ⟨c1, tl, he, hl⟩ := encGeom_shape o 0 g
+  have hscan : scan bnd d (u32 .little p ++ encGeom o 0 g) = .err .notWKBHeader := by
+    rw [hu]
+    simp only [List.cons_append, List.nil_append]
+    rw [scan_raw bnd d _ _ _ (ofNat_mod_ne p 92 (by decide) h3) (ofNat_mod_ne p 48 (by decide) h2)
+      (by simp only [List.length_cons, hn]; omega)]
+    exact scanDest_badhdr bnd d _ _ (ofNat_mod_ne p 0 (by decide) h0) (ofNat_mod_ne p 1 (by decide) h1)
+      (by simp only [List.length_cons, he]; omega)
+  simp only [wkbScan, hscan, sliceFrom_append _ _ _ (u32_length .little p),
+    scan_table' bnd d o 0 g hw (by decide)]
+  cases coerce bnd d (canon g) <;> rfl
 
 theorem wkbScan_prefix_witness' (bnd : BoundFn) :
     ∃ v, wkbScan bnd .any (u32 .little 256 ++ encGeom .little 0 (.point ⟨0x3ff0000000000000, 0x4000000000000000⟩)) = .ok v ∧
       v ≠ .point ⟨0x3ff0000000000000, 0x4000000000000000⟩ := by
-  sorry
+  refine ⟨.point ⟨0x0100000000000000, 0x0000f03f00000000⟩, by rfl, ?_⟩
+  intro h
+  injection h with h
+  injection h with h _
+  exact absurd h (by decide)
+
+/-! ### inversion: everything a decoder returns is canonical and fits the 32-bit counts -/
+
+theorem unmarshalBOT_srid {buf : Bytes} {o : Order} {t srid : Nat} {gd : Bytes}
+    (h : unmarshalBOT buf = .ok (o, t, srid, gd)) : srid < 2 ^ 32 := by
+  unfold unmarshalBOT at h
+  split at h
+  · split at h
+    · injection h with h; injection h with _ h; injection h with _ h; injection h with h _
+      subst h; decide
+    · split at h
+      · contradiction
+      · injection h with h; injection h with _ h; injection h with _ h; injection h with h _
+        subst h; exact rd32_lt _ _
+  · contradiction
+  · contradiction
+
+theorem readPts_length (o : Order) (n : Nat) : ∀ data, (readPts o data n).length = n := by
+  induction n with
+  | zero => intro; rfl
+  | succ n ih => intro data; simp only [readPts, List.length_cons, ih]
+
+theorem unmarshalPoints_ok {o : Order} {data : Bytes} {ps : List (Pt UInt64)}
+    (h : unmarshalPoints o data = .ok ps) : ps.length < 2 ^ 32 := by
+  unfold unmarshalPoints at h
+  split at h
+  · contradiction
+  · simp only [] at h
+    split at h
+    · contradiction
+    · injection h with h
+      subst h
+      rw [readPts_length]
+      exact rd32_lt _ _
+
+theorem unmarshalPolygon_loop_ok {o : Order} (n : Nat) : ∀ {data : Bytes} {rs : List (List (Pt UInt64))},
+    unmarshalPolygon.loop o n data = .ok rs → rs.length = n ∧ ∀ r ∈ rs, r.length < 2 ^ 32 := by
+  induction n with
+  | zero =>
+    intro data rs h
+    simp only [unmarshalPolygon.loop] at h
+    injection h with h; subst h; simp
+  | succ n ih =>
+    intro data rs h
+    simp only [unmarshalPolygon.loop] at h
+    split at h
+    · rename_i ps hps
+      split at h
+      · rename_i rest hrest
+        split at h
+        · rename_i rs' hrs'
+          injection h with h
+          subst h
+          have := ih hrs'
+          have hp := unmarshalPoints_ok hps
+          refine ⟨by simp [this.1], ?_⟩
+          intro r hr
+          rcases List.mem_cons.1 hr with hr | hr
+          · subst hr; exact hp
+          · exact this.2 r hr
+        all_goals contradiction
+      all_goals contradiction
+    all_goals contradiction
+
+
+theorem unmarshalPolygon_ok {o : Order} {data : Bytes} {rs : List (List (Pt UInt64))}
+    (h : unmarshalPolygon o data = .ok rs) : rs.length < 2 ^ 32 ∧ ∀ r ∈ rs, r.length < 2 ^ 32 := by
+  unfold unmarshalPolygon at h
+  split at h
+  · contradiction
+  · have := unmarshalPolygon_loop_ok _ h
+    exact ⟨by rw [this.1]; exact rd32_lt _ _, this.2⟩
+
+theorem memberLoop_ok {β : Type} (P : β → Prop) (scan : Bytes → R (β × Nat)) (stride : β → Nat)
+    (hscan : ∀ d x s, scan d = .ok (x, s) → P x) (n : Nat) : ∀ {data : Bytes} {xs : List β},
+    memberLoop scan stride n data = .ok xs → xs.length = n ∧ ∀ x ∈ xs, P x := by
+  induction n with
+  | zero =>
+    intro data xs h
+    simp only [memberLoop] at h
+    injection h with h; subst h; simp
+  | succ n ih =>
+    intro data xs h
+    simp only [memberLoop] at h
+    split at h
+    · rename_i x s hx
+      split at h
+      · rename_i rest hrest
+        split at h
+        · rename_i xs' hxs'
+          injection h with h
+          subst h
+          have := ih hxs'
+          have hp := hscan _ _ _ hx
+          refine ⟨by simp [this.1], ?_⟩
+          intro y hy
+          rcases List.mem_cons.1 hy with hy | hy
+          · subst hy; exact hp
+          · exact this.2 y hy
+        all_goals contradiction
+      all_goals contradiction
+    all_goals contradiction
+
+theorem scanSingle_ok {β : Type} (P : β → Prop) (tS tM : Nat) (single : Order → Bytes → R β)
+    (multi : Order → Bytes → R (List β))
+    (hsingle : ∀ o d x, single o d = .ok x → P x)
+    (hmulti : ∀ o d xs, multi o d = .ok xs → ∀ x ∈ xs, P x)
+    {data : Bytes} {x : β} {s : Nat} (h : scanSingle tS tM single multi data = .ok (x, s)) : P x := by
+  unfold scanSingle at h
+  split at h
+  · split at h
+    · split at h
+      · rename_i p hp
+        injection h with h; injection h with h _; subst h
+        exact hsingle _ _ _ hp
+      all_goals contradiction
+    · split at h
+      · split at h
+        · rename_i p hp
+          injection h with h; injection h with h _; subst h
+          exact hmulti _ _ _ hp _ (by simp)
+        all_goals contradiction
+      · contradiction
+  all_goals contradiction
+
+theorem unmarshalMultiF_ok {β : Type} (P : β → Prop) (tS tM : Nat) (single : Order → Bytes → R β)
+    (stride : β → Nat) (hsingle : ∀ o d x, single o d = .ok x → P x) (fuel : Nat) :
+    ∀ (o : Order) (data : Bytes) (xs : List β),
+    unmarshalMultiF tS tM single stride fuel o data = .ok xs → xs.length < 2 ^ 32 ∧ ∀ x ∈ xs, P x := by
+  induction fuel with
+  | zero => intro o data xs h; simp only [unmarshalMultiF] at h; contradiction
+  | succ fuel ih =>
+    intro o data xs h
+    simp only [unmarshalMultiF] at h
+    split at h
+    · contradiction
+    · have := memberLoop_ok P _ _ (fun d x s hx =>
+        scanSingle_ok P tS tM single _ hsingle (fun o d xs hxs => (ih o d xs hxs).2) hx) _ h
+      exact ⟨by rw [this.1]; exact rd32_lt _ _, this.2⟩
+
+/-! stream side -/
+
+theorem readU32_ok {o : Order} {s r : Bytes} {n : Nat} (h : readU32 o s = .ok (n, r)) : n < 2 ^ 32 := by
+  unfold readU32 at h
+  split at h
+  · injection h with h; injection h with h _; subst h; exact rd32_lt _ _
+  all_goals contradiction
+
+theorem readPtsLoop_ok {o : Order} (n : Nat) : ∀ {s r : Bytes} {ps : List (Pt UInt64)},
+    readPtsLoop o n s = .ok (ps, r) → ps.length = n := by
+  induction n with
+  | zero =>
+    intro s r ps h
+    simp only [readPtsLoop] at h
+    injection h with h; injection h with h _; subst h; rfl
+  | succ n ih =>
+    intro s r ps h
+    simp only [readPtsLoop] at h
+    split at h
+    · split at h
+      · rename_i hps
+        injection h with h; injection h with h _; subst h
+        simp [ih hps]
+      all_goals contradiction
+    all_goals contradiction
+
+theorem readLineString_ok {o : Order} {s r : Bytes} {ps : List (Pt UInt64)}
+    (h : readLineString o s = .ok (ps, r)) : ps.length < 2 ^ 32 := by
+  unfold readLineString at h
+  split at h
+  · rename_i hn
+    rw [readPtsLoop_ok _ h]; exact readU32_ok hn
+  all_goals contradiction
+
+theorem readRingsLoop_ok {o : Order} (n : Nat) : ∀ {s r : Bytes} {rs : List (List (Pt UInt64))},
+    readRingsLoop o n s = .ok (rs, r) → rs.length = n ∧ ∀ x ∈ rs, x.length < 2 ^ 32 := by
+  induction n with
+  | zero =>
+    intro s r rs h
+    simp only [readRingsLoop] at h
+    injection h with h; injection h with h _; subst h; simp
+  | succ n ih =>
+    intro s r rs h
+    simp only [readRingsLoop] at h
+    split at h
+    · rename_i hx
+      split at h
+      · rename_i hrs
+        injection h with h; injection h with h _; subst h
+        have := ih hrs
+        have hp := readLineString_ok hx
+        refine ⟨by simp [this.1], ?_⟩
+        intro y hy
+        rcases List.mem_cons.1 hy with hy | hy
+        · subst hy; exact hp
+        · exact this.2 y hy
+      all_goals contradiction
+    all_goals contradiction
+
+theorem readPolygon_ok {o : Order} {s r : Bytes} {rs : List (List (Pt UInt64))}
+    (h : readPolygon o s = .ok (rs, r)) : rs.length < 2 ^ 32 ∧ ∀ x ∈ rs, x.length < 2 ^ 32 := by
+  unfold readPolygon at h
+  split at h
+  · rename_i hn
+    have := readRingsLoop_ok _ h
+    exact ⟨by rw [this.1]; exact readU32_ok hn, this.2⟩
+  all_goals contradiction
+
+theorem readMembers_ok {β : Type} (P : β → Prop) (want : Nat) (rd : Order → Bytes → R (β × Bytes))
+    (hrd : ∀ o s x r, rd o s = .ok (x, r) → P x) (n : Nat) : ∀ {s r : Bytes} {xs : List β},
+    readMembers want rd n s = .ok (xs, r) → xs.length = n ∧ ∀ x ∈ xs, P x := by
+  induction n with
+  | zero =>
+    intro s r xs h
+    simp only [readMembers] at h
+    injection h with h; injection h with h _; subst h; simp
+  | succ n ih =>
+    intro s r xs h
+    simp only [readMembers] at h
+    split at h
+    · split at h
+      · contradiction
+      · split at h
+        · rename_i hx
+          split at h
+          · rename_i hxs
+            injection h with h; injection h with h _; subst h
+            have := ih hxs
+            have hp := hrd _ _ _ _ hx
+            refine ⟨by simp [this.1], ?_⟩
+            intro y hy
+            rcases List.mem_cons.1 hy with hy | hy
+            · subst hy; exact hp
+            · exact this.2 y hy
+          all_goals contradiction
+        all_goals contradiction
+    all_goals contradiction
+
+
+/-- decoded values are canonical and well-formed -/
+def Good (g : G) : Prop := canon g = g ∧ WF32 g
+
+theorem canonList_id (gs : List G) (h : ∀ g ∈ gs, canon g = g) : canon.canonList gs = gs := by
+  induction gs with
+  | nil => rfl
+  | cons x xs ih =>
+    simp only [canon.canonList, h x (by simp), ih (fun y hy => h y (by simp [hy]))]
+
+theorem good_collection (gs : List G) (hl : gs.length < 2 ^ 32) (h : ∀ g ∈ gs, Good g) :
+    Good (.collection gs) := by
+  refine ⟨?_, ?_⟩
+  · simp only [canon, canonList_id gs (fun g hg => (h g hg).1)]
+  · simp only [WF32]
+    exact ⟨hl, fun g hg => (h g hg).2⟩
+
+theorem collLoop_ok (P : G → Prop) (dec : Bytes → R (G × Nat × Bytes))
+    (hdec : ∀ s g sr r, dec s = .ok (g, sr, r) → P g) (n : Nat) : ∀ {s r : Bytes} {gs : List G},
+    collLoop dec n s = .ok (gs, r) → gs.length = n ∧ ∀ g ∈ gs, P g := by
+  induction n with
+  | zero =>
+    intro s r gs h
+    simp only [collLoop] at h
+    injection h with h; injection h with h _; subst h; simp
+  | succ n ih =>
+    intro s r gs h
+    simp only [collLoop] at h
+    split at h
+    · rename_i hx
+      split at h
+      · rename_i hxs
+        injection h with h; injection h with h _; subst h
+        have := ih hxs
+        have hp := hdec _ _ _ _ hx
+        refine ⟨by simp [this.1], ?_⟩
+        intro y hy
+        rcases List.mem_cons.1 hy with hy | hy
+        · subst hy; exact hp
+        · exact this.2 y hy
+      all_goals contradiction
+    all_goals contradiction
+
+theorem decodeWith_ok (coll : Order → Bytes → R (List G × Bytes))
+    (hcoll : ∀ o s gs r, coll o s = .ok (gs, r) → gs.length < 2 ^ 32 ∧ ∀ g ∈ gs, Good g)
+    {s r : Bytes} {g : G} {srid : Nat} (h : decodeWith coll s = .ok (g, srid, r)) : Good g := by
+  unfold decodeWith at h
+  split at h
+  · split at h
+    · -- point
+      split at h
+      · injection h with h; injection h with h _; subst h
+        exact ⟨rfl, by simp only [WF32]⟩
+      all_goals contradiction
+    · split at h
+      · -- multiPoint
+        split at h
+        · rename_i hn
+          split at h
+          · rename_i hm
+            injection h with h; injection h with h _; subst h
+            have := readMembers_ok (fun _ => True) _ _ (fun _ _ _ _ _ => trivial) _ hm
+            exact ⟨rfl, by simp only [WF32]; rw [this.1]; exact readU32_ok hn⟩
+          all_goals contradiction
+        all_goals contradiction
+      · split at h
+        · -- lineString
+          split at h
+          · rename_i hl
+            injection h with h; injection h with h _; subst h
+            exact ⟨rfl, by simp only [WF32]; exact readLineString_ok hl⟩
+          all_goals contradiction
+        · split at h
+          · -- multiLineString
+            split at h
+            · rename_i hn
+              split at h
+              · rename_i hm
+                injection h with h; injection h with h _; subst h
+                have := readMembers_ok (fun l => l.length < 2 ^ 32) _ _
+                  (fun _ _ _ _ hx => readLineString_ok hx) _ hm
+                exact ⟨rfl, by simp only [WF32]; exact ⟨by rw [this.1]; exact readU32_ok hn, this.2⟩⟩
+              all_goals contradiction
+            all_goals contradiction
+          · split at h
+            · -- polygon
+              split at h
+              · rename_i hp
+                injection h with h; injection h with h _; subst h
+                exact ⟨rfl, by simp only [WF32]; exact readPolygon_ok hp⟩
+              all_goals contradiction
+            · split at h
+              · -- multiPolygon
+                split at h
+                · rename_i hn
+                  split at h
+                  · rename_i hm
+                    injection h with h; injection h with h _; subst h
+                    have := readMembers_ok
+                      (fun p : List (List (Pt UInt64)) => p.length < 2 ^ 32 ∧ ∀ r ∈ p, r.length < 2 ^ 32) _ _
+                      (fun _ _ _ _ hx => readPolygon_ok hx) _ hm
+                    exact ⟨rfl, by simp only [WF32]; exact ⟨by rw [this.1]; exact readU32_ok hn, this.2⟩⟩
+                  all_goals contradiction
+                all_goals contradiction
+              · split at h
+                · -- collection
+                  split at h
+                  · rename_i hc
+                    injection h with h; injection h with h _; subst h
+                    have := hcoll _ _ _ _ hc
+                    exact good_collection _ this.1 this.2
+                  all_goals contradiction
+                · contradiction
+  all_goals contradiction
+
+theorem readCollectionF_ok (fuel : Nat) : ∀ (o : Order) (s : Bytes) (gs : List G) (r : Bytes),
+    readCollectionF fuel o s = .ok (gs, r) → gs.length < 2 ^ 32 ∧ ∀ g ∈ gs, Good g := by
+  induction fuel with
+  | zero => intro o s gs r h; simp only [readCollectionF] at h; contradiction
+  | succ fuel ih =>
+    intro o s gs r h
+    simp only [readCollectionF] at h
+    split at h
+    · rename_i hn
+      have := collLoop_ok Good _ (fun s g sr r hd => decodeWith_ok _ ih hd) _ h
+      exact ⟨by rw [this.1]; exact readU32_ok hn, this.2⟩
+    all_goals contradiction
+
+theorem decode_ok {data : Bytes} {g : G} {s : Nat} (h : decode data = .ok (g, s)) : Good g := by
+  unfold decode decodeStream at h
+  split at h
+  · rename_i hd
+    injection h with h; injection h with h _; subst h
+    exact decodeWith_ok _ (readCollectionF_ok _) hd
+  all_goals contradiction
+
+
+theorem unmarshal_ok {bs : Bytes} {g : G} {srid : Nat} (h : unmarshal bs = .ok (g, srid)) :
+    Good g ∧ srid < 2 ^ 32 := by
+  unfold unmarshal at h
+  split at h
+  · rename_i o typ srid' gd hb
+    have hs := unmarshalBOT_srid hb
+    simp only [] at h
+    split at h
+    · -- point
+      split at h
+      · injection h with h; injection h with h h'; subst h; subst h'
+        exact ⟨⟨rfl, by simp only [WF32]⟩, hs⟩
+      all_goals contradiction
+    · split at h
+      · -- multiPoint
+        split at h
+        · rename_i hm
+          injection h with h; injection h with h h'; subst h; subst h'
+          have := unmarshalMultiF_ok (fun _ => True) _ _ _ _ (fun _ _ _ _ => trivial) _ _ _ _ hm
+          exact ⟨⟨rfl, by simp only [WF32]; exact this.1⟩, hs⟩
+        all_goals contradiction
+      · split at h
+        · -- lineString
+          split at h
+          · rename_i hm
+            injection h with h; injection h with h h'; subst h; subst h'
+            exact ⟨⟨rfl, by simp only [WF32]; exact unmarshalPoints_ok hm⟩, hs⟩
+          all_goals contradiction
+        · split at h
+          · -- multiLineString
+            split at h
+            · rename_i hm
+              injection h with h; injection h with h h'; subst h; subst h'
+              have := unmarshalMultiF_ok (fun l : List (Pt UInt64) => l.length < 2 ^ 32) _ _ _ _
+                (fun _ _ _ hx => unmarshalPoints_ok hx) _ _ _ _ hm
+              exact ⟨⟨rfl, by simp only [WF32]; exact this⟩, hs⟩
+            all_goals contradiction
+          · split at h
+            · -- polygon
+              split at h
+              · rename_i hm
+                injection h with h; injection h with h h'; subst h; subst h'
+                exact ⟨⟨rfl, by simp only [WF32]; exact unmarshalPolygon_ok hm⟩, hs⟩
+              all_goals contradiction
+            · split at h
+              · -- multiPolygon
+                split at h
+                · rename_i hm
+                  injection h with h; injection h with h h'; subst h; subst h'
+                  have := unmarshalMultiF_ok
+                    (fun p : List (List (Pt UInt64)) => p.length < 2 ^ 32 ∧ ∀ r ∈ p, r.length < 2 ^ 32) _ _ _ _
+                    (fun _ _ _ hx => unmarshalPolygon_ok hx) _ _ _ _ hm
+                  exact ⟨⟨rfl, by simp only [WF32]; exact this⟩, hs⟩
+                all_goals contradiction
+              · split at h
+                · -- collection
+                  split at h
+                  · rename_i hd
+                    injection h with h; injection h with h h'; subst h; subst h'
+                    exact ⟨decode_ok hd, hs⟩
+                  all_goals contradiction
+                · contradiction
+  all_goals contradiction
 
 theorem reencode_stable' (bs : Bytes) (g : G) (srid : Nat) (h : unmarshal bs = .ok (g, srid)) (o : Order) :
     unmarshal (encGeom o srid g) = .ok (g, srid) := by
-  sorry
+  obtain ⟨⟨hc, hw⟩, hs⟩ := unmarshal_ok h
+  have := unmarshal_encode' o srid g hw hs
+  rw [hc] at this
+  exact this
+
 
 end Orb.WKB
